@@ -163,10 +163,13 @@ PROPS = {
                       "held gets an empty assignment list and state FREE; nothing else is touched; exclusive two-way consistency is "
                       "preserved), resource state = ABSENCE/FREE/WORKING from absence list and assignment, READY->WORKING sets the "
                       "resources WORKING, a facility is only accepted while unassigned.",
-        "level_note": "The allocation loop BaseProject.__allocate (which must preserve exclusivity) and the step invariant over simulate "
-                      "are not yet under contract; until then the invariant `holds_exclusively` is a precondition, not a theorem.",
+        "level_note": "Both allocation branches of BaseProject.__allocate are verified as blocks (one execution for one task: a resource's own "
+                      "list gets the task exactly when the task's list gets the resource; only offered, eligible resources; the allocation "
+                      "statement gives an automatic task nothing), and simulate keeps `holds_exclusively` as a loop invariant given the "
+                      "__allocate contract. Not proved: the loop invariant of the task loop inside __allocate that connects the blocks, so "
+                      "__allocate as a whole still enters simulate as an assumed contract.",
         "design_ref": "DESIGN.md section 6 C03",
-        "assumptions": ["not yet discharged: BaseProject.__allocate preserves exclusive two-way consistency; step composition"],
+        "assumptions": ["not discharged: the loop invariant of the task loop of BaseProject.__allocate (block preconditions at every iteration); __allocate enters simulate as an assumed contract"],
         "explanation": "release, state-from-assignment, READY->WORKING resource states",
     },
     "C04": {
@@ -179,7 +182,11 @@ PROPS = {
                       "unassigned facility, facility/worker/operator skills > tol) for all tasks/workers/facilities, and each clause of "
                       "the property is a proved consequence; the team/workplace membership tests are proved to mean `the resource's "
                       "team/workplace targets the task` under unique IDs.",
-        "level_note": "That __allocate only appends resources that passed these tests (and FREE ones) is not yet under contract.",
+        "level_note": "Both allocation branches of __allocate are verified as blocks: every worker / facility that is added was offered as FREE, "
+                      "is skilled for the task, belongs to a team / workplace that targets it (facilities: of the workplace where the component "
+                      "is placed) and was accepted by can_add_resources; simulate proves at the call site that resource states are fresh from "
+                      "the absence lists of that step. Not proved: the loop invariant of the task loop inside __allocate that connects the "
+                      "blocks (block preconditions at every iteration).",
         "design_ref": "DESIGN.md section 6 C04",
         "assumptions": ["WF.ids: unique team/workplace IDs, every worker's team_id names a team of the organization",
                         "not yet discharged: the allocation loop only appends resources accepted by these predicates"],
@@ -381,7 +388,8 @@ PROPS = {
                       "outside the band frac(D/p) in (0, tol/p).",
         "level_note": "BaseProject() and read_simple_json are TRUSTED (file I/O); the loaded result of a successful run is assumed aligned and "
                       "well-formed. The composition of the run lemmas into `occupies exactly ceil(..) consecutive working steps` is a written "
-                      "argument. `Needing no workers`: __allocate skips automatic tasks syntactically (`if not task.auto_task`).",
+                      "argument. `Needing no workers`: the allocation statement of __allocate (block __allocate@allocation, selected by position, whatever "
+                      "its guard is) is proved to give an automatic task nothing.",
         "design_ref": "DESIGN.md section 6 C20",
         "assumptions": ["TRUSTED: BaseProject.__init__, BaseProject.read_simple_json (contract assumed: loaded successful result is aligned)",
                         "excluded band of width tol/p (A1)", "composition of the run lemmas not mechanised"],
